@@ -48,6 +48,15 @@ Theorem C20_long_invoke_id_decode : forall s x y z, s < 256 ->
     Ok (be_val [x; y; z], N.testbit s 7, N.testbit s 6, N.testbit s 4, N.testbit s 5).
 Proof. exact liid_decode_all. Qed.
 
+(* the long form over every constructor argument (any natural number as id): ids that do not fit 24 bits are refused, and
+   whatever is encoded decodes back to the value encoded - so no two distinct values share a pattern *)
+Theorem C20_long_invoke_id_out_of_range_refused : forall i p c s b,
+  2 ^ 24 <= i -> liid_to_bytes (i, p, c, s, b) = Err ERefused.
+Proof. exact liid_out_of_range_refused. Qed.
+
+Theorem C20_long_invoke_id_total_inverse : forall x bs, liid_to_bytes x = Ok bs -> liid_from_bytes bs = Ok x.
+Proof. exact liid_encode_total_inverse. Qed.
+
 (* clock status *)
 Theorem C20_clock_status_decode : forall v, v < 256 ->
   cstat_from_byte v = (N.testbit v 0, N.testbit v 1, N.testbit v 2, N.testbit v 3, N.testbit v 7)
